@@ -567,6 +567,140 @@ def interrupts(ctx, r, bd):
 	ctx.count("distinct_code_locations_preempted_per_shard", len(PREEMPTED_AT))
 
 
+# ---- osmocon's glue around sercomm (host side) ---------------------------------------------------
+
+OSMOCON_C = os.path.join(common.REPO, "src/host/osmocon/osmocon.c")
+GLUE_FUNCS = ("hdlc_send_to_phone", "handle_sercomm_write", "hdlc_tool_cb")
+TOOL_DLCIS = [1, 2, 3, 5, 9, 10, 31, 64, 127]
+NO_TOOL_DLCIS = [6, 7, 100]
+
+
+def extract_glue():
+	""" The text of osmocon.c's three sercomm glue functions (osmocon.c as a whole needs a serial port,
+	    libosmocore's select loop and the downloaders).  -> text or None when a function is not found. """
+	import re
+	with open(OSMOCON_C) as f:
+		lines = f.read().split("\n")
+	out = []
+	for name in GLUE_FUNCS:
+		start = next((i for i, l in enumerate(lines) if re.match(r"^static\s+[\w\s\*]*\b%s\s*\(" % name, l)), None)
+		if start is None:
+			return None
+		end = next((i for i in range(start, len(lines)) if lines[i].startswith("}")), None)
+		if end is None:
+			return None
+		out.append("\n".join(lines[start:end + 1]))
+	return "\n\n".join(out)
+
+
+def build_glue(bd):
+	text = extract_glue()
+	if text is None:
+		return None
+	tu = os.path.join(bd.path, "osmocon_glue_tu.c")
+	with open(tu, "w") as f:
+		f.write("/* generated: function text from %s */\n#define GLUE_PART_1\n#include \"osmocon_glue_main.c\"\n#undef GLUE_PART_1\n" % OSMOCON_C)
+		f.write(text + "\n")
+		f.write("#define GLUE_PART_2\n#include \"osmocon_glue_main.c\"\n")
+	return cbuild.compile_link(bd, "osmocon_glue_drv",
+		[tu, os.path.join(cbuild.FW, "comm/sercomm.c"), os.path.join(cbuild.LIBOSMO, "src/msgb.c"),
+		 os.path.join(cbuild.LIBOSMO, "src/talloc.c")],
+		includes = [os.path.join(cbuild.CDIR, "drivers"), os.path.join(cbuild.FW, "include/comm"),
+			os.path.join(cbuild.LIBOSMO, "include"), cbuild.libosmocore_config(bd)],
+		defines = ["HOST_BUILD"])
+
+
+def osmocon_glue(ctx, r, bd):
+	""" Messages handed to osmocon's hdlc_send_to_phone() come out of its handle_sercomm_write() as well-formed
+	    frames and - looped back into the receiver - reach hdlc_tool_cb() intact: length prefix + payload per tool. """
+	binary = build_glue(bd)
+	if binary is None:
+		ctx.count("osmocon_glue_functions_not_found")
+		return
+	cases = []
+	for _ in range(ctx.scale(150, 6000)):
+		ops = []
+		for _ in range(r.randint(1, 12)):
+			d = r.choice(TOOL_DLCIS + TOOL_DLCIS + NO_TOOL_DLCIS)
+			k = r.random()
+			n = r.choice((0, 1, 2, 255, 256, 257, 510, 511, 512)) if k < 0.3 else r.choice((513, 514, 600)) if k < 0.36 else r.randint(0, 300)
+			body = bytes(r.choice((FLAG, ESC, 0x00, r.randrange(256))) for _ in range(n)) if r.random() < 0.3 else r.randbytes(n)
+			ops.append(("T", d, body))
+			if r.random() < 0.25:
+				ops.append(("W",))
+		ops.append(("W",))
+		cases.append(ops)
+	scripts = [("N %d\n" % i + "".join("T %d %s\n" % (op[1], hexs(op[2])) if op[0] == "T" else "W\n" for op in ops)).encode()
+		for i, ops in enumerate(cases)]
+	outputs, crashes = cbuild.run_cases(binary, scripts, args = [str(d) for d in TOOL_DLCIS])
+	for c in crashes:
+		ctx.violation("osmocon-glue", {"script": scripts[c[0]].decode()[:6000], "stderr": c[2][-1500:]},
+			what = "osmocon's sercomm glue dies (rc=%s): %s" % (c[1], c[3] or "no sanitizer report"))
+	bad = {c[0] for c in crashes}
+	for i, ops in enumerate(cases):
+		out = outputs[i]
+		if out is None or i in bad:
+			continue
+		ctx.seen(common.h64(scripts[i]))
+		ctx.count("osmocon_glue_cases")
+		w = {"script": scripts[i].decode()[:4000]}
+		pos = 0
+		queues = {}
+		err = None
+		for op in ops:
+			if op[0] == "T":
+				if len(op[2]) <= 512:
+					queues.setdefault(op[1], []).append(op[2])
+					ctx.count("osmocon_messages")
+				else:
+					ctx.count("osmocon_oversized_refused")
+				continue
+			wire = b""
+			tool = {}
+			done = False
+			while pos < len(out):
+				l = out[pos]
+				pos += 1
+				if l.startswith("w "):
+					wire += unhex(l[2:])
+				elif l.startswith("t "):
+					p = l.split(" ")
+					tool[int(p[1])] = tool.get(int(p[1]), b"") + unhex(p[2])
+				elif l.startswith("e "):
+					if l != "e 0":
+						err = "writing is still enabled after the queue was drained"
+					done = True
+					break
+			if not done:
+				err = "the driver did not finish draining"
+			if err:
+				break
+			want_wire = b"".join(frame(d, p) for d in sorted(queues) for p in queues[d])
+			if wire != want_wire:
+				frames, ferr = unframe(wire)
+				err = "octets written to the serial line differ from the queued messages framed lowest DLCI first (%s)" % (
+					ferr or "%d frames, %d messages queued" % (len(frames), sum(map(len, queues.values()))))
+				w["wire"] = wire[:300].hex()
+				break
+			for d in TOOL_DLCIS:
+				want = b"".join(len(p).to_bytes(2, "big") + p for p in queues.get(d, []))
+				if tool.get(d, b"") != want:
+					err = "tool connection of DLCI %d received %d octets, expected %d (16-bit length prefix + payload per message)" % (
+						d, len(tool.get(d, b"")), len(want))
+					w["received"] = tool.get(d, b"")[:200].hex()
+					break
+			if err:
+				break
+			if any(d not in TOOL_DLCIS for d in tool):
+				err = "a tool connection received something for a DLCI it does not serve"
+				break
+			queues = {}
+		if err:
+			ctx.violation("osmocon-glue", w, what = "osmocon: " + err)
+		else:
+			ctx.count("osmocon_glue_cases_ok")
+
+
 def echo_cases(r, n):
 	""" A frame for the echo DLCI arriving from outside is queued for
 	    transmission again, intact (sercomm_sendmsg is its handler). """
@@ -635,6 +769,7 @@ def run(ctx):
 		RXBUF = 256
 		interrupts(ctx, ctx.rng("c06-irq"), bd)
 		RXBUF = 2048
+		osmocon_glue(ctx, ctx.rng("c06-osmocon"), bd)
 	finally:
 		bd.remove()
 	ctx.require("interrupt_cases_ok", 300)
